@@ -591,23 +591,29 @@ def rkn_stages(c, A, Abar, K, g, dt, t0, x0, v0):
          X_i = x0 + dt c_i v0 + dt^2 sum_{j<i} Abar[i,j] f_j ,  V_i = v0 + dt sum_{j<i} A[i,j] f_j ,  f_j = K X_j + g(t0 + c_j dt)."""
     S = len(c)
     K = np.asarray(K, dtype=float)
+    aK = np.abs(K)
     n = K.shape[0]
     X = np.zeros((S, n))
     V = np.zeros((S, n))
     Fs = np.zeros((S, n))
     sx = np.zeros((S, n))
+    sv = np.zeros((S, n))
+    sf = np.zeros((S, n))
     for i in range(S):
         X[i] = x0 + dt * c[i] * v0
         sx[i] = np.abs(x0) + abs(dt * c[i]) * np.abs(v0)
         V[i] = v0
+        sv[i] = np.abs(v0)
         for j in range(i):
             X[i] += dt * dt * Abar[i, j] * Fs[j]
-            sx[i] += dt * dt * abs(Abar[i, j]) * np.abs(Fs[j])
+            sx[i] += dt * dt * abs(Abar[i, j]) * sf[j]
             V[i] += dt * A[i, j] * Fs[j]
-        Fs[i] = K @ X[i] + np.asarray(g(t0 + c[i] * dt)).reshape(n)
-    scale = float(np.max(sx)) * (1.0 + dt * dt * float(np.max(np.sum(np.abs(K), axis=1), initial=0.0))) ** S
-    sv = float(np.max(np.abs(v0))) + abs(dt) * float(np.max(np.abs(A))) * S * float(np.max(np.abs(Fs), initial=0.0))
-    return {'X': X, 'V': V, 'F': Fs, 'scale_x': max(scale, 1e-300), 'scale_v': max(sv, scale)}
+            sv[i] += abs(dt * A[i, j]) * sf[j]
+        gi = np.asarray(g(t0 + c[i] * dt)).reshape(n)
+        Fs[i] = K @ X[i] + gi
+        sf[i] = aK @ sx[i] + np.abs(gi)
+    # magnitude recursion of the explicit stage process (no cancellation assumed)
+    return {'X': X, 'V': V, 'F': Fs, 'scale_x': max(float(np.max(sx)), 1e-300), 'scale_v': max(float(np.max(sv)), float(np.max(sx)), 1e-300), 'scale_f': max(float(np.max(sf)), 1e-300)}
 
 
 # ======================================================================================================================
